@@ -271,6 +271,9 @@ def classify_crash(text, rc):
     return "CRASH exit:%s" % rc
 
 
+MAX_CRASHES = 400
+
+
 def run_cases(exe, cases, timeout=1200, env_extra=None, chunk=20000):
     """run case lines through a line-oriented executable; a crash is attributed to the first unanswered case"""
     outs = []
@@ -280,7 +283,12 @@ def run_cases(exe, cases, timeout=1200, env_extra=None, chunk=20000):
         env.update(env_extra)
     i = 0
     n = len(cases)
+    crashes = 0
     while i < n:
+        if crashes >= MAX_CRASHES:
+            # the verdict is settled many times over: do not grind through thousands of further crashes
+            outs.extend(["SKIPPED after %d crashes" % crashes] * (n - i))
+            break
         part = cases[i:i + chunk]
         p = subprocess.Popen([exe], stdin=subprocess.PIPE, stdout=subprocess.PIPE, stderr=subprocess.PIPE, env=env)
         try:
@@ -293,6 +301,7 @@ def run_cases(exe, cases, timeout=1200, env_extra=None, chunk=20000):
             outs.extend(lines)
             outs.append("HANG")
             i += len(lines) + 1
+            crashes += 1
             continue
         lines = so.decode("utf8", "replace").split("\n")
         if lines and lines[-1] == "":
@@ -311,6 +320,7 @@ def run_cases(exe, cases, timeout=1200, env_extra=None, chunk=20000):
         if answered < len(part):
             outs.append(classify_crash(se.decode("utf8", "replace"), p.returncode))
             i += answered + 1
+            crashes += 1
         else:
             i += answered
     return outs
